@@ -85,7 +85,15 @@ def validate_is_node(node, length):
     validate_length(length, node)     # crossed
 '''
 
+MUTDEF_CTL = '''
+def validate_is_bytes(value, seen=[]):
+    seen.append(value)                # the one default list grows with every call
+    if not isinstance(value, bytes):
+        raise TypeError(value)
+'''
+
 CONTROLS = {
+    "MUTDEF": (None, {"trie/validation.py": MUTDEF_CTL}, "no-shared-mutable-default"),
     "ARGX": (None, {"trie/validation.py": ARGX_CTL}, "crossed-arguments:validate_is_node"),
     "VALMSG": (None, {"trie/validation.py": VALMSG_CTL}, "refusal-message:validate_is_bytes"),
     "EXCORIGIN": (None, {"trie/validation.py": VALMSG_CTL}, "exception-origin:trie.validation:ValidationError"),
